@@ -23,6 +23,14 @@ type Sched struct {
 	// CancelSleep keeps the goroutine that hit the cancel point parked for a moment after
 	// cancelling, so that the other goroutines observe the cancellation first.
 	CancelSleep time.Duration
+	// Hold: the FIRST goroutine reaching HoldPoint waits (bounded by HoldMax) until some goroutine reaches
+	// any other hook point afterwards - used to keep a goroutine of one call parked until the next call on the same object is
+	// under way. Released by Finish.
+	HoldPoint string
+	HoldMax   time.Duration
+	held      bool
+	Held      int
+	others    int // hook events at points other than HoldPoint
 
 	mu        sync.Mutex
 	rng       *Rng
@@ -99,6 +107,9 @@ func (s *Sched) Hook(point string, a, b int64) {
 	s.mu.Lock()
 	s.counts[point]++
 	n := s.counts[point]
+	if point != s.HoldPoint {
+		s.others++
+	}
 	if len(s.events) < s.MaxEvents {
 		s.events = append(s.events, fmt.Sprintf("%s:%d:%d", point, a, b))
 	}
@@ -117,7 +128,23 @@ func (s *Sched) Hook(point string, a, b int64) {
 	}
 	act := s.rng.Intn(100)
 	mode := s.Mode
+	hold := s.HoldPoint != "" && point == s.HoldPoint && !s.held
+	var base int
+	if hold {
+		s.held = true
+		s.Held++
+		base = s.others
+	}
 	s.mu.Unlock()
+	if hold {
+		max := s.HoldMax
+		if max == 0 {
+			max = 2 * time.Second
+		}
+		s.waitUntil(func() bool { return s.others > base }, max)
+		time.Sleep(200 * time.Microsecond)
+		return
+	}
 	if doCancel {
 		s.Cancel()
 		if s.CancelSleep > 0 {
